@@ -104,6 +104,9 @@ type recBackend struct {
 	CommitErr error
 	WriteErr  error
 	CloseErr  error // returned by every writer's Close
+	// LenientRange: GetBlobRange answers a start offset beyond the end with an empty reader describing the
+	// whole blob instead of an error (a backend that seeks in a file, or proxies an upstream that does so)
+	LenientRange bool
 	// Content served by reader methods.
 	Content   []byte
 	MediaType string
@@ -216,6 +219,9 @@ func (b *recBackend) Funcs() *ociregistry.Funcs {
 			n := int64(len(b.Content))
 			if o1 < 0 || o1 > n {
 				o1 = n
+			}
+			if b.LenientRange && o0 > o1 {
+				return b.readerFor(nil, d)
 			}
 			if o0 < 0 || o0 > o1 {
 				return nil, fmt.Errorf("invalid range")
